@@ -360,16 +360,25 @@ Q(id='C13.detect_alphabet.tables', props=['C13', 'C14', 'C04'], cls='P', harness
 
 # =========================================================================== readers (C05 / C04 / C16), capacity-shrunk
 def _fasta_shapes(tier):
-    import itertools
+    H, A, G, B, D, N = "'>'", "'A'", "'-'", "' '", "'1'", "(-61)"   # header, letter, gap symbol, blank, digit, byte 0xC3
+    sets = [
+        [(A, 2)], [(G, 1)], [(N, 2)], [(D, 2)],                 # no header at all
+        [(H, 2), (A, 2)], [(H, 2), (G, 2)], [(H, 1), (N, 2)], [(H, 2), (B, 2)],
+        [(H, 3), (H, 2)],                                       # empty record
+        [(H, 2), (A, 3)],                                       # residue buffer grows (capacity 2)
+        [(H, 2), (A, 2), (G, 2)], [(H, 1), (G, 2), (A, 2)],
+        [(H, 1), (A, 1), (H, 2), (A, 2)],                       # two records
+        [(H, 1), (H, 1), (H, 1)],                               # record table grows (capacity 2)
+    ]
+    if tier != 'quick':
+        sets += [[(H, 2), (A, 5)], [(H, 2), (A, 3), (A, 3)], [(H, 1), (G, 3), (G, 3)], [(H, 2), (D, 2), (A, 2)], [(H, 1), (A, 2), (H, 1), (G, 2), (H, 1), (N, 2)],
+                 [(G, 2), (H, 2), (A, 2)], [(H, 4), (A, 1), (B, 1), (A, 1)]]
     out = []
-    if tier == 'quick':
-        sets = [(1,), (2,), (2, 2), (1, 2), (2, 1, 2), (2, 3), (1, 1, 1), (2, 0, 2), (2, 2, 2, 2), (3, 3)]
-    else:
-        sets = [t for n in (1, 2, 3) for t in itertools.product(range(0, 4), repeat=n)] + [(2, 2, 2, 2), (2, 1, 2, 1), (2, 5), (2, 2, 2, 2, 2)]
     for t in sets:
-        # smallest complete unwinding bound for this shape: records <= lines, residues per record <= bytes, growth steps of 2
-        uw = max(len(t) + 2, sum(t) + 2, 5)
-        out.append(dict(name='lines' + ''.join(map(str, t)), defs=dict(KV_LINELENS='{' + ','.join(map(str, t)) + '}'), unwind=uw))
+        lens = [x[1] for x in t]
+        uw = max(len(t) + 2, max(lens) + 2, sum(lens) + 2, 5)
+        out.append(dict(name='lines_' + '_'.join('%s%d' % ({H: 'H', A: 'A', G: 'G', B: 'B', D: 'D', N: 'N'}[x[0]], x[1]) for x in t),
+                        defs=dict(KV_LINELENS='{' + ','.join(map(str, lens)) + '}', KV_LINEFIRST='{' + ','.join(x[0] for x in t) + '}'), unwind=uw))
     return out
 READER_NATIVE = ['lib/src/tldevel.c', 'lib/src/tlmisc.c', 'lib/src/msa_alloc.c', 'lib/src/msa_op.c', 'lib/src/msa_misc.c', 'lib/src/alphabet.c', 'lib/src/esl_stopwatch.c']
 Q(id='C05.read_fasta', props=['C05', 'C04', 'C16'], cls='B', harness='c05_read_fasta.c', entry='h_c05_read_fasta', shapes=_fasta_shapes,
@@ -380,4 +389,4 @@ Q(id='C05.read_fasta', props=['C05', 'C04', 'C16'], cls='B', harness='c05_read_f
   native_srcs=READER_NATIVE,
   trusted=[TRUST_MSG, 'isalpha/ispunct: CBMC C-locale models (-D__NO_CTYPE)', 'memcpy/realloc: CBMC library models',
            'R3 capacity shrink: 512-record / 512-residue growth constants replaced by 2 (contracts/msa_alloc.shrink.loops, msa_io.shrink.loops)'],
-  assumptions=[A_NOFAIL, A_WRAP, 'bounded: 1-4 lines of 0-3 (5) bytes, bytes symbolic over the non-control byte domain incl. >= 0x80; getline/FILE plumbing (read_file_stdin) not covered'])
+  assumptions=[A_NOFAIL, A_WRAP, 'bounded: 1-6 lines of 1-5 bytes; the first byte of each line is a concrete class representative (header marker, letter, gap symbol, blank, digit, byte 0xC3), every other byte symbolic over the non-control byte domain incl. >= 0x80; getline/FILE plumbing (read_file_stdin) not covered'])
